@@ -326,6 +326,9 @@ func corrNames(r *rng, c *caseOut, n int) {
 			name = names[i]
 		} else {
 			l := r.intn(10)
+			if i%5 == 4 {
+				l = 60 + r.intn(240) // long names (subtest paths): nothing may depend on where a name is cut
+			}
 			rs := make([]rune, l)
 			for j := range rs {
 				rs[j] = alphabet[r.intn(len(alphabet))]
